@@ -8,6 +8,7 @@ import (
 	"log"
 	"math"
 	"math/big"
+	"os"
 	"path/filepath"
 	"reflect"
 	"regexp"
@@ -20,8 +21,12 @@ import (
 
 	. "verifharness/h"
 
+	ethcommon "github.com/ethereum/go-ethereum/common"
+	"github.com/smartcontractkit/libocr/offchainreporting2plus/chains/evmutil"
+
 	"github.com/smartcontractkit/chainlink-automation/tools/simulator/config"
 	"github.com/smartcontractkit/chainlink-automation/tools/simulator/node"
+	"github.com/smartcontractkit/chainlink-automation/tools/simulator/run"
 	"github.com/smartcontractkit/chainlink-automation/tools/simulator/simulate/chain"
 	"github.com/smartcontractkit/chainlink-automation/tools/simulator/simulate/loader"
 	"github.com/smartcontractkit/chainlink-automation/tools/simulator/telemetry"
@@ -97,6 +102,11 @@ type c20Case struct {
 	Confs    []c20Conf `json:"confs,omitempty"`
 	Gens     []c20Gen  `json:"gens,omitempty"`
 	Logs     []c20Log  `json:"logs,omitempty"`
+	// plan: durations (ns) used, in turn, for every duration field of the plan; save + load through files
+	Durs    []int64 `json:"durs,omitempty"`
+	ViaFile bool    `json:"via_file,omitempty"`
+	// wired: per Load, the number of upkeeps in each report transmitted before it
+	Loads [][]int `json:"loads,omitempty"`
 	// verdict
 	Trackers        []c20Tracker `json:"trackers,omitempty"`
 	RegisterDelayMs int          `json:"register_delay_ms,omitempty"`
@@ -213,14 +223,21 @@ func runReportCase(t *testing.T, c *c20Case) {
 		t.Fatal(err)
 	}
 	var out bytes.Buffer
-	events := telemetry.NewContractEventCollector(quiet)
+	// assembled the way cmd/simulator/main.go does it (non-verbose outputs, EVM digester)
+	outputs, err := run.SetupOutput("", true, false, plan)
+	if err != nil {
+		t.Fatal(err)
+	}
+	events := outputs.EventCollector
 	_ = events.AddNode("n1")
 	_ = events.AddNode("n2")
 	pt := telemetry.NewProgressTelemetry(io.Discard)
 	g, err := node.NewGroup(node.GroupConfig{
-		SimulationPlan: plan, Upkeeps: upkeeps,
-		Collectors: []telemetry.Collector{telemetry.NewNodeRPCCollector("", false), events},
-		Logger:     log.New(&out, "", 0),
+		SimulationPlan: plan,
+		Digester:       evmutil.EVMOffchainConfigDigester{ChainID: 1, ContractAddress: ethcommon.BigToAddress(big.NewInt(12))},
+		Upkeeps:        upkeeps,
+		Collectors:     []telemetry.Collector{outputs.RPCCollector, outputs.LogCollector, events},
+		Logger:         log.New(&out, "", 0),
 	}, pt)
 	if err != nil {
 		t.Fatal(err)
@@ -281,8 +298,13 @@ func runReportCase(t *testing.T, c *c20Case) {
 				c.Obs.Panic, c.Obs.PanicMsg = true, fmt.Sprint(r)
 			}
 		}()
+		// the end of Group.Start: transmit chart, then the summary
+		g.WriteTransmitChart()
 		g.ReportResults()
 	}()
+	if !c.Obs.Panic && !strings.Contains(out.String(), "Transmitted Results") {
+		c.Obs.Panic, c.Obs.PanicMsg = true, "the transmit chart was not written"
+	}
 	if !c.Obs.Panic {
 		s := &c20Summary{Low: -1, High: -1}
 		n := int64(len(upkeeps))
@@ -427,19 +449,31 @@ func (p *recProgress) Register(ns string, total int64) error {
 func (p *recProgress) Increment(string, int64) {}
 
 func buildPlan(c *c20Case) config.SimulationPlan {
+	di := 0
+	dur := func(def time.Duration) config.Duration {
+		if len(c.Durs) == 0 {
+			return config.Duration(def)
+		}
+		d := c.Durs[di%len(c.Durs)]
+		di++
+		return config.Duration(d)
+	}
 	plan := config.SimulationPlan{
 		Node:    config.Node{Count: 4, MaxServiceWorkers: 10, MaxQueueSize: 100},
-		Network: config.Network{MaxLatency: config.Duration(100 * time.Millisecond)},
+		Network: config.Network{MaxLatency: dur(100 * time.Millisecond)},
 		RPC:     config.RPC{MaxBlockDelay: 600, AverageLatency: 300, ErrorRate: 0.02, RateLimitThreshold: 1000},
-		Blocks: config.Blocks{Genesis: new(big.Int).SetUint64(c.Genesis), Cadence: config.Duration(time.Second),
-			Jitter: config.Duration(200 * time.Millisecond), Duration: c.Duration, EndPadding: 20},
+		Blocks: config.Blocks{Genesis: new(big.Int).SetUint64(c.Genesis), Cadence: dur(time.Second),
+			Jitter: dur(200 * time.Millisecond), Duration: c.Duration, EndPadding: 20},
 		ConfigEvents: []config.OCR3ConfigEvent{}, GenerateUpkeeps: []config.GenerateUpkeepEvent{}, LogEvents: []config.LogTriggerEvent{},
 	}
 	for _, e := range c.Confs {
 		plan.ConfigEvents = append(plan.ConfigEvents, config.OCR3ConfigEvent{
 			Event:           config.Event{Type: config.EventType(e.EvType), TriggerBlock: new(big.Int).SetUint64(e.Block), Comment: "c"},
-			MaxFaultyNodesF: e.F, Offchain: `{"version":"v3"}`, Rmax: 7, DeltaProgress: config.Duration(10 * time.Second),
-			DeltaRound: config.Duration(1100 * time.Millisecond), MaxQuery: config.Duration(50 * time.Millisecond),
+			MaxFaultyNodesF: e.F, Offchain: `{"version":"v3"}`, Rmax: 7,
+			DeltaProgress: dur(10 * time.Second), DeltaResend: dur(10 * time.Second), DeltaInitial: dur(300 * time.Millisecond),
+			DeltaRound: dur(1100 * time.Millisecond), DeltaGrace: dur(300 * time.Millisecond), DeltaRequest: dur(200 * time.Millisecond),
+			DeltaStage: dur(20 * time.Second), MaxQuery: dur(50 * time.Millisecond), MaxObservation: dur(100 * time.Millisecond),
+			MaxAccept: dur(50 * time.Millisecond), MaxTransmit: dur(50 * time.Millisecond),
 		})
 	}
 	for _, e := range c.Gens {
@@ -650,6 +684,126 @@ func verdictRandom(r *Rng) c20Case {
 	return c
 }
 
+// ------------------------------------------------------------------ part D2: the real loader wired to the real telemetry
+
+// As in a run: NewOCR3TransmitLoader registers the plan's expectation with the real
+// ProgressTelemetry, reports are transmitted and loaded into blocks, main.go closes the telemetry and
+// asks AllProgressComplete.  Loads[i] lists the number of upkeeps in each report of the i-th block.
+func runWiredCase(t *testing.T, c *c20Case) {
+	plan := buildPlan(c)
+	ups, err := chain.GenerateAllUpkeeps(plan)
+	if err != nil {
+		t.Fatal(err)
+	}
+	logs, _ := chain.GenerateLogTriggers(plan)
+	var loads []int64
+	defer func() {
+		if r := recover(); r != nil {
+			leaked = append(leaked, c.Family+": "+fmt.Sprint(r))
+		}
+		trig := NewInterner()
+		var us, ls []string
+		for _, u := range ups {
+			el := make([]uint64, len(u.EligibleAt))
+			for j, e := range u.EligibleAt {
+				el[j] = e.Uint64()
+			}
+			us = append(us, fmt.Sprintf("mkGU %d %s %s %s %s %d", int(u.Type), CoqBool(u.Expected), CoqN(u.CreateInBlock.Uint64()),
+				CoqBool(u.AlwaysEligible), CoqList(el, CoqN), trig.ID(u.TriggeredBy)))
+		}
+		for _, l := range logs {
+			ls = append(ls, fmt.Sprintf("mkGL %s %d", CoqN(l.TriggerAt.Uint64()), trig.ID(l.TriggerValue)))
+		}
+		id := func(s string) string { return s }
+		c.term = fmt.Sprintf("mkWCase %s %s %s %s", CoqList(us, id), CoqList(ls, id), CoqList(loads, CoqZ), CoqBool(c.Obs.Success))
+	}()
+	synctest.Test(t, func(t *testing.T) {
+		pt := telemetry.NewProgressTelemetry(io.Discard)
+		pt.Start()
+		tl, err := loader.NewOCR3TransmitLoader(plan, pt, quiet)
+		if err != nil {
+			t.Fatal(err)
+		}
+		synctest.Wait()
+		round := uint64(0)
+		for bi, reports := range c.Loads {
+			var n int64
+			for _, k := range reports {
+				var results []common.CheckResult
+				for j := 0; j < k; j++ {
+					id := UpkeepID(0, 1+j)
+					if len(ups) > 0 {
+						id = common.UpkeepIdentifier(ups[j%len(ups)].UpkeepID)
+					}
+					trg := common.NewTrigger(common.BlockNumber(c.Genesis+uint64(bi)), Hash32("blk", bi))
+					results = append(results, common.CheckResult{UpkeepID: id, Trigger: trg, WorkID: simutil.UpkeepWorkID(id, trg)})
+				}
+				rep, err := simutil.EncodeCheckResultsToReportBytes(results)
+				if err != nil {
+					t.Fatal(err)
+				}
+				round++
+				if err := tl.Transmit("0xsender", rep, round); err != nil {
+					t.Fatal(err)
+				}
+				n += int64(k)
+			}
+			blk := chain.Block{Number: new(big.Int).SetUint64(c.Genesis + uint64(bi) + 1), Hash: Hash32("blk", bi+1)}
+			tl.Load(&blk)
+			if len(reports) > 0 {
+				loads = append(loads, n)
+			}
+			synctest.Wait()
+			time.Sleep(20 * time.Millisecond)
+		}
+		_ = pt.Close()
+		c.Obs.Success = pt.AllProgressComplete()
+		time.Sleep(2 * time.Second)
+		synctest.Wait()
+	})
+}
+
+func wiredBoundary() []c20Case {
+	g := uint64(1000)
+	gen := func(exp string) []c20Gen {
+		return []c20Gen{{Block: g, Count: 2, StartID: 200, Elig: "20x", Offset: "x", Type: "conditional", Expected: exp, EvType: "generateUpkeeps"}}
+	}
+	mk := func(fam string, gens []c20Gen, loads ...[]int) c20Case {
+		return c20Case{Kind: "wired", Family: fam, Genesis: g, Duration: 50, Gens: gens, Loads: loads}
+	}
+	// 2 upkeeps eligible at +21/+41 and +22/+42: 4 performs expected
+	return []c20Case{
+		mk("expected-4-performed-4", gen("all"), []int{1}, []int{1, 1}, []int{}, []int{1}),
+		mk("expected-4-performed-3", gen("all"), []int{1}, []int{2}),
+		mk("expected-4-performed-5", gen("all"), []int{2, 3}),
+		mk("expected-4-nothing-performed", gen("all")),
+		mk("none-expected-nothing-performed", gen("none")),
+		mk("none-expected-but-performed", gen("none"), []int{}, []int{1}),
+		mk("none-expected-but-performed-twice", gen("none"), []int{1}, []int{2}),
+		mk("no-upkeeps-but-performed", nil, []int{1}),
+		mk("never-eligible-but-performed", []c20Gen{{Block: g, Count: 3, StartID: 200, Elig: "never", Type: "conditional", Expected: "all", EvType: "generateUpkeeps"}}, []int{1}),
+		mk("none-expected-empty-report-loaded", gen("none"), []int{0}),
+	}
+}
+
+func wiredRandom(r *Rng) c20Case {
+	e := expectedRandom(r)
+	c := c20Case{Kind: "wired", Family: "random", Genesis: e.Genesis, Duration: e.Duration, Gens: e.Gens, Logs: e.Logs}
+	if r.Chance(1, 3) {
+		for i := range c.Gens {
+			c.Gens[i].Expected = "none"
+		}
+	}
+	for i := 0; i < r.Intn(5); i++ {
+		var reports []int
+		for k := 0; k < r.Intn(3); k++ {
+			reports = append(reports, 1+r.Intn(3))
+		}
+		c.Loads = append(c.Loads, reports)
+	}
+	return c
+}
+
 // ------------------------------------------------------------------ part E: plan codec
 
 func tagOf(t config.EventType) int {
@@ -678,15 +832,67 @@ func expectedOf(s string) int {
 	return 3
 }
 
-// an event's content without its type tag and `expected`, as a canonical string
+// canon renders a value structurally (field by field; durations as nanoseconds, big integers in
+// decimal), so that two events are equal exactly when their Go values are.  It does not go through
+// the JSON codec under test.
+func canon(v reflect.Value) string {
+	switch v.Kind() {
+	case reflect.Struct:
+		var b strings.Builder
+		b.WriteString("{")
+		for i := 0; i < v.NumField(); i++ {
+			b.WriteString(v.Type().Field(i).Name + ":" + canon(v.Field(i)) + ";")
+		}
+		b.WriteString("}")
+		return b.String()
+	case reflect.Ptr:
+		if v.IsNil() {
+			return "nil"
+		}
+		if bi, ok := v.Interface().(*big.Int); ok {
+			return bi.String()
+		}
+		return "&" + canon(v.Elem())
+	case reflect.Slice:
+		var parts []string
+		for i := 0; i < v.Len(); i++ {
+			parts = append(parts, canon(v.Index(i)))
+		}
+		return "[" + strings.Join(parts, ",") + "]"
+	case reflect.String:
+		return strconv.Quote(v.String())
+	case reflect.Int, reflect.Int8, reflect.Int16, reflect.Int32, reflect.Int64:
+		return strconv.FormatInt(v.Int(), 10)
+	case reflect.Uint, reflect.Uint8, reflect.Uint16, reflect.Uint32, reflect.Uint64:
+		return strconv.FormatUint(v.Uint(), 10)
+	case reflect.Float32, reflect.Float64:
+		return strconv.FormatFloat(v.Float(), 'g', -1, 64)
+	case reflect.Bool:
+		return strconv.FormatBool(v.Bool())
+	}
+	return fmt.Sprintf("<%s>", v.Kind())
+}
+
+// an event's content without its type tag and `expected`
 func eventBody(v any) string {
-	b, _ := json.Marshal(v)
-	var m map[string]any
-	_ = json.Unmarshal(b, &m)
-	delete(m, "type")
-	delete(m, "expected")
-	b, _ = json.Marshal(m)
-	return string(b)
+	switch e := v.(type) {
+	case config.OCR3ConfigEvent:
+		e.Type = ""
+		return canon(reflect.ValueOf(e))
+	case config.GenerateUpkeepEvent:
+		e.Type, e.Expected = "", ""
+		return canon(reflect.ValueOf(e))
+	case config.LogTriggerEvent:
+		e.Type = ""
+		return canon(reflect.ValueOf(e))
+	}
+	return "?"
+}
+
+// everything of a plan but its events
+func planRest(p config.SimulationPlan) string {
+	p.ConfigEvents, p.GenerateUpkeeps, p.LogEvents = nil, nil, nil
+	return canon(reflect.ValueOf(p))
 }
 
 func runPlanCase(t *testing.T, c *c20Case) {
@@ -708,7 +914,22 @@ func runPlanCase(t *testing.T, c *c20Case) {
 		return fmt.Sprintf("(mkPlan %s %s %s)", CoqList(a, id), CoqList(b, id), CoqList(l, id))
 	}
 	in := planTerm(plan)
-	enc, err := plan.Encode()
+	var enc []byte
+	var err error
+	planFile := ""
+	if c.ViaFile {
+		// what a verbose run does: SetupOutput saves the plan, a later run loads it
+		dir := t.TempDir()
+		outputs, oerr := run.SetupOutput(dir, true, true, plan)
+		if oerr != nil {
+			t.Fatal(oerr)
+		}
+		_ = outputs.Close()
+		planFile = filepath.Join(dir, "simulation_plan.json")
+		enc, err = os.ReadFile(planFile)
+	} else {
+		enc, err = plan.Encode()
+	}
 	if err != nil {
 		t.Fatal(err)
 	}
@@ -728,17 +949,20 @@ func runPlanCase(t *testing.T, c *c20Case) {
 		_ = json.Unmarshal(raw, &e)
 		c.Obs.Wire = append(c.Obs.Wire, tagOf(e.Type))
 	}
-	dec, derr := config.DecodeSimulationPlan(enc)
+	var dec config.SimulationPlan
+	var derr error
+	if c.ViaFile {
+		dec, derr = run.LoadSimulationPlan(planFile)
+	} else {
+		dec, derr = config.DecodeSimulationPlan(enc)
+	}
 	decTerm := "None"
 	c.Obs.RestOK = false
 	if derr != nil {
 		c.Obs.DecErr = derr.Error()
 	} else {
 		decTerm = "(Some " + planTerm(dec) + ")"
-		c.Obs.RestOK = reflect.DeepEqual(plan.Node, dec.Node) && reflect.DeepEqual(plan.Network, dec.Network) &&
-			reflect.DeepEqual(plan.RPC, dec.RPC) && plan.Blocks.Genesis.Cmp(dec.Blocks.Genesis) == 0 &&
-			plan.Blocks.Cadence == dec.Blocks.Cadence && plan.Blocks.Jitter == dec.Blocks.Jitter &&
-			plan.Blocks.Duration == dec.Blocks.Duration && plan.Blocks.EndPadding == dec.Blocks.EndPadding
+		c.Obs.RestOK = planRest(plan) == planRest(dec)
 		// a second round trip must be the identity
 		enc2, err2 := dec.Encode()
 		dec2, err3 := config.DecodeSimulationPlan(enc2)
@@ -769,7 +993,20 @@ func planBoundary() []c20Case {
 		mk("type-tags-unset", []c20Conf{{Block: g, F: 1}}, []c20Gen{gNoType}, []c20Log{{Block: g, Value: "v"}}),
 		mk("type-tags-wrong", []c20Conf{{Block: g, F: 2, EvType: "logTrigger"}}, []c20Gen{gen}, []c20Log{{Block: g, Value: "v", EvType: "ocr3config"}}),
 		mk("many", []c20Conf{conf, conf, conf}, []c20Gen{gen, gNone, gEmpty, gen}, []c20Log{lg, lg, lg}),
+		// durations that are not a whole number of milliseconds, in every duration field
+		withDurs(mk("durations-sub-millisecond", []c20Conf{conf}, []c20Gen{gen}, []c20Log{lg}), false,
+			2500000, 750000, 1, 999999, 1000500000, 1500, 10000000001, 300000001, 1100000500, 299999999, 200000250, 20000000000, 50000, 100500000),
+		withDurs(mk("durations-sub-millisecond-saved-file", []c20Conf{conf, conf}, []c20Gen{gen}, nil), true,
+			2500000, 750000, 1, 999999, 1000500000, 1500, 10000000001, 300000001, 1100000500, 299999999, 200000250, 20000000000, 50000, 100500000),
+		withDurs(mk("durations-whole-units-saved-file", []c20Conf{conf}, []c20Gen{gen, gNone}, []c20Log{lg}), true,
+			100000000, 1000000000, 200000000, 60000000000, 3600000000000, 0),
+		withDurs(mk("durations-no-events", nil, nil, nil), false, 2500000, 750000, 123456789),
 	}
+}
+
+func withDurs(c c20Case, viaFile bool, durs ...int64) c20Case {
+	c.Durs, c.ViaFile = durs, viaFile
+	return c
 }
 
 func planRandom(r *Rng) c20Case {
@@ -789,6 +1026,25 @@ func planRandom(r *Rng) c20Case {
 		x.EvType = types[r.Intn(5)]
 		c.Logs = append(c.Logs, x)
 	}
+	if r.Chance(2, 3) {
+		for i := 0; i < 3+r.Intn(12); i++ {
+			var d int64
+			switch r.Intn(5) {
+			case 0: // whole milliseconds
+				d = int64(r.Intn(5000)) * 1000000
+			case 1: // microsecond part
+				d = int64(r.Intn(5000))*1000000 + int64(1+r.Intn(999))*1000
+			case 2: // nanosecond part
+				d = int64(r.Intn(2000))*1000000 + int64(1+r.Intn(999999))
+			case 3: // below one millisecond
+				d = int64(r.Intn(1000000))
+			default: // seconds .. hours with a fraction
+				d = int64(1+r.Intn(7200))*1000000000 + int64(r.Intn(2))*500000
+			}
+			c.Durs = append(c.Durs, d)
+		}
+		c.ViaFile = r.Chance(1, 4)
+	}
 	return c
 }
 
@@ -807,6 +1063,7 @@ func TestC20(t *testing.T) {
 		cases = append(cases, reportBoundary(r)...)
 		cases = append(cases, expectedBoundary()...)
 		cases = append(cases, verdictBoundary()...)
+		cases = append(cases, wiredBoundary()...)
 		cases = append(cases, planBoundary()...)
 		n := EnvInt("VERIF_N", 100)
 		for i := 0; i < n; i++ {
@@ -821,11 +1078,14 @@ func TestC20(t *testing.T) {
 		for i := 0; i < n/2; i++ {
 			cases = append(cases, verdictRandom(r))
 		}
+		for i := 0; i < n/2; i++ {
+			cases = append(cases, wiredRandom(r))
+		}
 		for i := 0; i < n; i++ {
 			cases = append(cases, planRandom(r))
 		}
 	}
-	kinds := []string{"fms", "report", "expected", "verdict", "plan"}
+	kinds := []string{"fms", "report", "expected", "verdict", "wired", "plan"}
 	files := map[string]*CaseFile{}
 	byKind := map[string][]c20Case{}
 	fam := map[string]map[string]int{}
@@ -845,6 +1105,8 @@ func TestC20(t *testing.T) {
 			runExpectedCase(t, c)
 		case "verdict":
 			runVerdictCase(t, c)
+		case "wired":
+			runWiredCase(t, c)
 		case "plan":
 			runPlanCase(t, c)
 		default:
@@ -868,11 +1130,15 @@ func TestC20(t *testing.T) {
 		"verdict": {{"mism", "find_idx vc_mism cases"}, {"bad", "find_idx vc_bad cases"},
 			{"nontriv", "find_idx (fun c => Nat.ltb 0 (length (concat (map snd (vc_trackers c))))) cases"},
 			{"cov_success", "length (find_idx vc_obs cases)"}},
+		"wired": {{"mism", "find_idx wc_mism cases"}, {"bad", "find_idx wc_bad cases"},
+			{"nontriv", "find_idx (fun c => Nat.ltb 0 (length (wc_loads c))) cases"},
+			{"cov_negative_assertion_broken", "length (find_idx wc_negative_broken cases)"},
+			{"cov_success", "length (find_idx wc_obs cases)"}},
 		"plan": {{"mism", "find_idx pc_mism cases"}, {"bad", "find_idx pc_bad cases"},
 			{"nontriv", "find_idx (fun c => Nat.ltb 0 (length (pc_wire c))) cases"},
 			{"cov_old_encode_fails", "length (find_idx pc_old_fails cases)"}},
 	}
-	types := map[string]string{"fms": "f_case", "report": "r_case", "expected": "e_case", "verdict": "v_case", "plan": "p_case"}
+	types := map[string]string{"fms": "f_case", "report": "r_case", "expected": "e_case", "verdict": "v_case", "wired": "w_case", "plan": "p_case"}
 	for _, k := range kinds {
 		cf := files[k]
 		if cf.Len() == 0 {
